@@ -243,9 +243,10 @@ func c12Call(c pcall) []byte {
 		tr := common.NewTranscript("c12t")
 		for i := 0; i < 1+c.N%6; i++ {
 			sc := hx.FrFromBig(hx.ExpandFr(c.Seed, "c12ts", i))
-			tr.AppendScalar(&sc, []byte("s"))
-			tr.AppendPoint(&cfg.SRS[(c.K+i)&255], []byte("p"))
-			ch := tr.ChallengeScalar([]byte("c"))
+			// labels are windows of ONE table shared (read-only) by every goroutine, with spare capacity behind each window
+			tr.AppendScalar(&sc, c12LabelTable[0:1])
+			tr.AppendPoint(&cfg.SRS[(c.K+i)&255], c12LabelTable[1:2])
+			ch := tr.ChallengeScalar(c12LabelTable[2:3])
 			b := ch.Bytes()
 			out.Write(b[:])
 		}
@@ -428,6 +429,8 @@ func evalC12(c c12Case, rec *hx.Rec) error {
 }
 
 var c12Part = hx.NewPart("C12", "plan", genC12, evalC12)
+
+var c12LabelTable = append(make([]byte, 0, 512), "spc"...)
 
 func TestC12(t *testing.T) {
 	s := hx.Start(t, "C12")
